@@ -30,7 +30,7 @@ def cfg_fn(rng):
     return cfg
 
 
-WEIGHTS = {"paint": 9, "update_attrs": 0.2, "swap": 0.7}
+WEIGHTS = {"ctrl": 0.8, "paint": 9, "update_attrs": 0.2, "swap": 0.7}
 
 
 def plan(tier, seed):
